@@ -1,5 +1,5 @@
-\* exhaustive, generic Composite mode: 3 originals + 2 pool ids, 2 grid cells, depth 4
-CONSTANTS N = 5  NOrig = 3  NLoc = 2  MaxLevel = 5  Typed = FALSE  MaxSet = 2  NBlk = 0
+\* exhaustive, typed mode: assembly 1, blocks 2-3, components 4-5, pool 6-8
+CONSTANTS N = 8  NOrig = 5  NLoc = 1  MaxLevel = 4  Typed = TRUE  MaxSet = 2  NBlk = 2
 INIT Init
 NEXT Next
 CONSTRAINT Bound
